@@ -133,6 +133,9 @@ class Interp:
                 yield from self.solve(bd, s1, depth + 1, c)
                 if c.flag:
                     break
+        elif kind == 'builtin':
+            # the engine's own definition, first member of a definition list that a script extended (overwrite off)
+            yield from self.builtin(name, args, s, depth)
         elif kind == 'rows':
             rows = payload(len(args)) if callable(payload) else payload
             self.events.add('foreign-called')
